@@ -257,4 +257,57 @@ theorem cont_light (v : Int) : Cont (EventI.light v) (fun f => Cmd.setSlice f 9 
   dsimp only
   cases hx : Cmd.setSlice ⟨24, d⟩ 9 0 v <;> rfl
 
+/-- one flag write of the occupancy event, on integers and on naturals -/
+theorem occ_bit (data d m keep : Nat) :
+    (if pyAnd (data : Int) (m : Int) = (m : Int) then pyOr (d : Int) (m : Int) else pyAnd (d : Int) (keep : Int)) =
+      ((if (data &&& m == m) then d ||| m else d &&& keep : Nat) : Int) := by
+  rw [pyAnd_ofNat, pyOr_ofNat, pyAnd_ofNat]
+  by_cases h : data &&& m = m
+  · have h' : ((data &&& m : Nat) : Int) = (m : Int) := by rw [h]
+    simp [h]
+  · have h' : ¬ ((data &&& m : Nat) : Int) = (m : Int) := by omega
+    simp [h, h']
+
+theorem bitWrite (pos bit keep : Nat) (hp : pos < 24) (hb : 1 <<< pos = bit) (hk : mask 24 ^^^ (1 <<< pos) = keep)
+    (b : Bool) (d : Nat) :
+    Cmd.setBit ⟨24, d⟩ pos b = .ok ⟨24, if b then d ||| bit else d &&& keep⟩ := by
+  cases b
+  · simpa using bitClear pos keep hp hk d
+  · simpa using bitSet pos bit hp hb d
+
+/-- the last flag is written as the integer 1 or 0 (`1 if sensor_type == "movement" else 0`) -/
+theorem bitWriteInt (pos bit keep : Nat) (hp : pos < 24) (hb : 1 <<< pos = bit) (hk : mask 24 ^^^ (1 <<< pos) = keep)
+    (b : Bool) (d : Nat) :
+    Frame.setItem ⟨24, d⟩ (.idx (natVal pos)) (.int (if b then 1 else 0)) =
+      .ok ⟨24, if b then d ||| bit else d &&& keep⟩ := by
+  have h : ((pos : Nat) : Int) < 24 := by omega
+  have h0 : ¬ (((pos : Nat) : Int) < 0) := by omega
+  subst hb hk
+  cases b <;> simp [natVal, Frame.setItem, PyVal.asInt?, h, h0, PyVal.truthy, setBitRaw]
+
+/-- the model's four flag writes of the occupancy event -/
+def occK (mv oc rp sm : Bool) (f : Frame) : PyRes Frame :=
+  (Cmd.setBit f 0 mv).bind (fun f => (Cmd.setBit f 1 oc).bind (fun f => (Cmd.setBit f 2 rp).bind (fun f =>
+    f.setItem (.idx (natVal 3)) (.int (if sm then 1 else 0)))))
+
+theorem cont_occ (data : Nat) :
+    Cont (EventI.occ data) (occK (data &&& 1 == 1) (data &&& 2 == 2) (data &&& 4 == 4) (data &&& 8 == 8)) := by
+  intro d
+  unfold EventI.occ occK
+  rw [bitWrite 0 1 16777214 (by decide) (by decide) (by decide), ok_bind,
+    bitWrite 1 2 16777213 (by decide) (by decide) (by decide), ok_bind,
+    bitWrite 2 4 16777211 (by decide) (by decide) (by decide), ok_bind,
+    bitWriteInt 3 8 16777207 (by decide) (by decide) (by decide)]
+  dsimp only
+  have e1 : ∀ d : Nat, (if pyAnd (data : Int) 1 = 1 then pyOr (d : Int) 1 else pyAnd (d : Int) 16777214) =
+      ((if (data &&& 1 == 1) then d ||| 1 else d &&& 16777214 : Nat) : Int) := fun d => occ_bit data d 1 16777214
+  have e2 : ∀ d : Nat, (if pyAnd (data : Int) 2 = 2 then pyOr (d : Int) 2 else pyAnd (d : Int) 16777213) =
+      ((if (data &&& 2 == 2) then d ||| 2 else d &&& 16777213 : Nat) : Int) := fun d => occ_bit data d 2 16777213
+  have e3 : ∀ d : Nat, (if pyAnd (data : Int) 4 = 4 then pyOr (d : Int) 4 else pyAnd (d : Int) 16777211) =
+      ((if (data &&& 4 == 4) then d ||| 4 else d &&& 16777211 : Nat) : Int) := fun d => occ_bit data d 4 16777211
+  have e4 : ∀ d : Nat, (if pyAnd (data : Int) 8 = 8 then pyOr (d : Int) 8 else pyAnd (d : Int) 16777207) =
+      ((if (data &&& 8 == 8) then d ||| 8 else d &&& 16777207 : Nat) : Int) := fun d => occ_bit data d 8 16777207
+  rw [e1, e2, e3, e4]
+  rfl
+
 end DaliVerif.EventI
